@@ -695,6 +695,7 @@ var jNullishPatterns = []string{
 	"x=(a===undefined||a===null?b:a);", "x=(a==null?void 0:a.p);", "x=(a==null?undefined:f(a));", "if(a==null)x=b;else x=a;", "x=(a??b);", "x=(a?a:b);", "x=(a?b:a);",
 	"x=Math.pow(a,b);", "x=(a==null?undefined:a.p.q);",
 	"x=a?c?.(b):c(a);", "x=a?c(b):c?.(a);", "x=a?c?.(b):c?.(a);", "x=a?c(b):c(a);", "x=(c==null?undefined:c(a));", "x=a?b?.p:b.p;", "x=a?b.p:b?.p;",
+	"x={y:y,z:1};",
 }
 
 // VerifJSNullish (C16 version gates + C01): nullish / optional-chaining rewrite patterns for the targets ES5, ES2015,
@@ -724,6 +725,9 @@ func VerifJSNullish(n int) {
 	}
 	if version != 0 && version < 2016 {
 		vAssert(!has(out, "**"), "no ** for targets older than ES2016")
+	}
+	if version != 0 && version < 2015 {
+		vAssert(!has(out, "{y,") && !has(out, ",y}"), "no shorthand property for targets older than ES2015")
 	}
 	params := jSymParams()
 	s0, k0, v0, ok0 := jRun(orig, params)
